@@ -209,6 +209,36 @@ Proof.
   intros [s Hs]. exists (s ++ [t]). rewrite final_app, Hs. reflexivity.
 Qed.
 
+Lemma nth_upd {A} (l : list A) i j x d :
+  nth j (upd l i x) d = if Nat.eqb i j then (if Nat.ltb i (length l) then x else d) else nth j l d.
+Proof.
+  revert i j; induction l as [|a l IH]; intros i j; simpl.
+  - destruct (Nat.eqb i j); destruct i, j; reflexivity.
+  - destruct i, j; simpl; try reflexivity. rewrite IH.
+    destruct (Nat.eqb i j); [|reflexivity].
+    change (S i <? S (length l)) with (i <? length l). reflexivity.
+Qed.
+
+(** a step of thread [t] leaves every other thread untouched *)
+Lemma step_cfg_other c t t' :
+  t' <> t -> nth_error (c_thr (step_cfg c t)) t' = nth_error (c_thr c) t'.
+Proof.
+  intros Hne. unfold step_cfg, step_thread.
+  destruct (nth_error (c_thr c) t) as [th|] eqn:Hn; [|reflexivity].
+  destruct (view th) as [[[o l] fresh]|]; [|reflexivity].
+  destruct (m_step M l (c_sh c)); simpl; try reflexivity;
+    rewrite nth_error_upd; destruct (Nat.eqb t t') eqn:E; try reflexivity;
+    apply Nat.eqb_eq in E; congruence.
+Qed.
+
+Lemma step_cfg_length c t : length (c_thr (step_cfg c t)) = length (c_thr c).
+Proof.
+  unfold step_cfg, step_thread.
+  destruct (nth_error (c_thr c) t) as [th|]; [|reflexivity].
+  destruct (view th) as [[[o l] fresh]|]; [|reflexivity].
+  destruct (m_step M l (c_sh c)); simpl; try reflexivity; apply upd_length.
+Qed.
+
 End Conc.
 
 Arguments Next {shared tstate local ret}.
